@@ -32,6 +32,12 @@ CH = 16384  # bytes per chunk: larger than the io buffer, so every chunk write i
 OLD_MODE = 0o600
 DATA_NAME = "m.data"
 MODEL_NAME = "m.onnx"
+OTHER_NAME = "other.data"   # bystander file, variant b
+HARD_NAME = "hl.data"       # hard link to the destination (backed-variant "hard")
+SUB_NAME = "sub"            # sub-directory of the destination directory (variants c / "rel")
+SIB_SUFFIX = ".sib"         # sibling directory of the destination directory (variant a)
+OTHER_VARIANTS = ("a", "b", "c")
+BACKED_VARIANTS = ("plain", "rel", "hard")
 BEGIN_MARK = "/proc/self/vf-c08-begin"
 END_MARK = "/proc/self/vf-c08-end"
 
@@ -52,20 +58,65 @@ def norm_cfg(cfg: dict) -> dict:
     # sharded save: limit in chunks (max_shard_size_bytes = lim * CH); default: one plain tensor per shard
     c["lim"] = int(cfg.get("lim") or (c["nc"] if c["shard"] else 0)) if c["shard"] else 0
     c["np"] = sorted(int(x) for x in cfg.get("np", []))  # tensors that are plain numpy ir.Tensor (not in the spec cfg)
+    # ExternalTensors saved in the same call but backed by ANOTHER file (bystanders; cfg.other of the spec)
+    c["other"] = sorted(int(x) for x in cfg.get("other", []))
+    if set(c["other"]) & set(c["backed"]):
+        raise ValueError("a tensor cannot be backed by the destination and by another file")
+    # WHERE the other file lives (not in the spec cfg):
+    #   a  same file name in a sibling directory (different base_dir, identical `location` string)
+    #   b  another file name in the destination directory
+    #   c  same file name in a sub-directory, base_dir spelled relative to the working directory
+    ov = cfg.get("ov")
+    if c["other"]:
+        if ov is None:   # deterministic rotation over the configurations
+            ov = OTHER_VARIANTS[(c["nt"] + 2 * c["nc"] + len(c["dest"]) + len(c["backed"]) + c["par"] + c["lim"]
+                                 + sum(c["pre"]) + sum(c["other"])) % 3]
+        if ov not in OTHER_VARIANTS:
+            raise ValueError(f"unknown variant of the other file: {ov}")
+        c["ov"] = ov
+    else:
+        c["ov"] = None
+    # HOW the tensors backed by the destination spell its path (not in the spec cfg):
+    #   plain  base_dir = the directory, location = the data file name
+    #   rel    base_dir = <relative path of the directory>/sub/..   (another spelling of the same path)
+    #   hard   the path of a HARD LINK to the destination (absolute location, empty base_dir -- with a base_dir
+    #          onnx_ir refuses to read files that have several links)
+    bv = cfg.get("bv") or "plain"
+    if bv not in BACKED_VARIANTS:
+        raise ValueError(f"unknown spelling of the backed tensors' path: {bv}")
+    if bv != "plain" and not c["backed"]:
+        bv = "plain"
+    if bv == "hard" and c["dest"] != "file":
+        raise ValueError("the hard-link spelling needs a regular destination file")
+    c["bv"] = bv
     return c
 
 
-def cfg_key(c: dict) -> str:
-    s = f"nt{c['nt']}nc{c['nc']}-{c['dest']}-b{''.join(map(str, c['backed'])) or '0'}-{'par' if c['par'] else 'ser'}"
+def cfg_key(c: dict, spec_only: bool = False) -> str:
+    """Name of a configuration; spec_only: only the fields the specification knows."""
+    s = f"nt{c['nt']}nc{c['nc']}-{c['dest']}-b{''.join(map(str, c['backed'])) or '0'}"
+    if c.get("other"):
+        s += f"-o{''.join(map(str, c['other']))}"
+        if not spec_only:
+            s += c.get("ov") or ""
+    s += f"-{'par' if c['par'] else 'ser'}"
     if c["shard"]:
         s += f"-shard{c['lim']}-pre{''.join(map(str, c['pre'])) or '0'}"
-    if c.get("np"):
-        s += f"-np{''.join(map(str, c['np']))}"
+    if not spec_only:
+        if c.get("np"):
+            s += f"-np{''.join(map(str, c['np']))}"
+        if c.get("bv", "plain") != "plain":
+            s += f"-bv{c['bv']}"
     return s
 
 
+def ext_tensors(c: dict) -> list:
+    """All ExternalTensors of the configuration, whatever file backs them."""
+    return sorted(set(c["backed"]) | set(c.get("other", [])))
+
+
 def nchunks(c: dict, t: int) -> int:
-    return 1 if t in c["backed"] else c["nc"]
+    return 1 if (t in c["backed"] or t in c.get("other", [])) else c["nc"]
 
 
 def shard_assign(c: dict) -> list:
@@ -121,6 +172,42 @@ def old_bytes(c: dict) -> bytes:
     return b"\xee" * CH + b"".join(chunk_bytes(t, 1) for t in c["backed"]) + b"\xdd" * 100
 
 
+def other_offset(c: dict, t: int) -> int:
+    return CH * (1 + c["other"].index(t))
+
+
+def other_bytes(c: dict) -> bytes:
+    """Content of the bystanders' file (all tensors of c.other live in ONE other file)."""
+    return b"\xcc" * CH + b"".join(chunk_bytes(t, 1) for t in c["other"]) + b"\xbb" * 50
+
+
+def other_dir(c: dict, d: str) -> str:
+    """Directory of the bystanders' file (absolute)."""
+    return {"a": d + SIB_SUFFIX, "b": d, "c": os.path.join(d, SUB_NAME)}[c["ov"]]
+
+
+def other_location(c: dict) -> str:
+    return OTHER_NAME if c["ov"] == "b" else DATA_NAME   # a, c: the SAME location string as the destination
+
+
+def other_path(c: dict, d: str) -> str:
+    return os.path.join(other_dir(c, d), other_location(c))
+
+
+def other_base_dir(c: dict, d: str) -> str:
+    """base_dir given to the bystander tensors; variant c spells it relative to the working directory."""
+    return os.path.relpath(other_dir(c, d)) if c["ov"] == "c" else other_dir(c, d)
+
+
+def backed_spelling(c: dict, d: str) -> tuple:
+    """(location, base_dir) of the tensors backed by the destination."""
+    if c.get("bv") == "rel":
+        return DATA_NAME, os.path.join(os.path.relpath(d), SUB_NAME, "..")
+    if c.get("bv") == "hard":
+        return os.path.join(os.path.abspath(d), HARD_NAME), ""
+    return DATA_NAME, d
+
+
 def chunk_layout(c: dict, f: int) -> list:
     """[(t, j)] in file order for destination file f."""
     return [(t, j) for t in tensors_of(c, f) for j in range(1, nchunks(c, t) + 1)]
@@ -153,6 +240,13 @@ def prepare_dir(c: dict, d: str) -> None:
         os.makedirs(os.path.join(d, "real"), exist_ok=True)
         _write(os.path.join(d, real_rel(c)), old_bytes(c), OLD_MODE)
         os.symlink(real_rel(c), os.path.join(d, DATA_NAME))
+    if c.get("bv") == "rel" or (c.get("other") and c["ov"] == "c"):
+        os.makedirs(os.path.join(d, SUB_NAME), exist_ok=True)
+    if c.get("bv") == "hard":
+        os.link(os.path.join(d, DATA_NAME), os.path.join(d, HARD_NAME))
+    if c.get("other"):
+        os.makedirs(other_dir(c, d), exist_ok=True)
+        _write(other_path(c, d), other_bytes(c), OLD_MODE)
 
 
 def _write(path: str, data: bytes, mode: int) -> None:
@@ -205,6 +299,24 @@ def observe(c: dict, d: str) -> dict:
         link = os.readlink(os.path.join(d, DATA_NAME)) == real_rel(c)
     tdirs, tfile, extra = [], {"k": "absent", "sz": 0, "ch": []}, []
     known = set(names) | {MODEL_NAME, "real"}
+    if c.get("bv") == "hard":
+        known.add(HARD_NAME)
+    if c.get("bv") == "rel" or (c.get("other") and c["ov"] == "c"):
+        known.add(SUB_NAME)
+        inside = {DATA_NAME} if (c.get("other") and c["ov"] == "c") else set()
+        extra += [os.path.join(SUB_NAME, e) for e in sorted(os.listdir(os.path.join(d, SUB_NAME))) if e not in inside]
+    ofile = "None"
+    if c.get("other"):
+        if c["ov"] == "b":
+            known.add(OTHER_NAME)
+        elif c["ov"] == "a":
+            extra += [os.path.join("<sibling>", e) for e in sorted(os.listdir(other_dir(c, d))) if e != DATA_NAME]
+        try:
+            with open(other_path(c, d), "rb") as fh:
+                same = fh.read() == other_bytes(c)
+            ofile = "Old" if same and stat.S_IMODE(os.stat(other_path(c, d)).st_mode) == OLD_MODE else "Changed"
+        except FileNotFoundError:
+            ofile = "Absent"
     for bd in base_dirs:
         for e in sorted(os.listdir(bd)):
             full = os.path.join(bd, e)
@@ -231,6 +343,7 @@ def observe(c: dict, d: str) -> dict:
         "tfile": {"k": tfile["k"], "sz": tfile["sz"], "ch": tfile["ch"]},
         "details": details,
         "extra": extra,
+        "ofile": ofile,     # the bystanders' file: "None" (no bystander) | "Old" (bytes and mode untouched) | "Changed" | "Absent"
         "model": model,
     }
 
@@ -310,7 +423,9 @@ class Hooks:
 
 def build_model(c: dict, d: str, hooks: Hooks | None):
     """Model with nt initializers; tensor t is an ExternalTensor backed by the destination when
-    t in backed, a plain numpy ir.Tensor when t in np, else a harness tensor writing nc chunks."""
+    t in backed (path spelled as c.bv says), an ExternalTensor backed by ANOTHER file when t in other
+    (file placed as c.ov says), a plain numpy ir.Tensor when t in np, else a harness tensor writing
+    nc chunks.  Returns (model, {t: ExternalTensor})."""
     import numpy as np
     import onnx_ir as ir
 
@@ -363,10 +478,14 @@ def build_model(c: dict, d: str, hooks: Hooks | None):
 
     vals, ext = [], {}
     for t in range(1, c["nt"] + 1):
-        if t in c["backed"]:
+        if t in c["backed"] or t in c.get("other", []):
             cls = ProbeExt if hooks is not None else ir.ExternalTensor
+            if t in c["backed"]:
+                (location, base_dir), offset = backed_spelling(c, d), old_offset(c, t)
+            else:
+                location, base_dir, offset = other_location(c), other_base_dir(c, d), other_offset(c, t)
             ten = cls(
-                DATA_NAME, old_offset(c, t), CH, ir.DataType.UINT8, shape=ir.Shape([CH]), name=f"w{t}", base_dir=d
+                location, offset, CH, ir.DataType.UINT8, shape=ir.Shape([CH]), name=f"w{t}", base_dir=base_dir
             )
             if hooks is not None:
                 ten._vf_t = t
@@ -396,22 +515,28 @@ def save_kwargs(c: dict) -> dict:
 
 
 def tensor_report(c: dict, ext: dict, premapped: bool) -> dict:
-    """valid()/tobytes() of the ExternalTensors backed by the destination, after the save."""
+    """valid()/tobytes() of EVERY ExternalTensor (backed by the destination or by another file), after
+    the save: readable = the tensor still yields its own bytes."""
     rep = {}
     for t, ten in ext.items():
         v = bool(ten.valid())
         readable = None
         if v:
-            try:
-                readable = bytes(ten.tobytes()) == chunk_bytes(t, 1)
-            except Exception as e:  # noqa: BLE001
-                readable = f"{type(e).__name__}: {e}"
-            finally:
+            # an errno injected by strace fires at ONE invocation, possibly one of this read-back (after the
+            # save): a failing read is repeated, only a tensor that stays unreadable is reported so
+            for _attempt in range(3):
                 try:
-                    ten.release()
-                except Exception:  # noqa: BLE001
-                    pass
-        rep[str(t)] = {"valid": v, "readable": readable}
+                    readable = bytes(ten.tobytes()) == chunk_bytes(t, 1)
+                except Exception as e:  # noqa: BLE001
+                    readable = f"{type(e).__name__}: {e}"
+                finally:
+                    try:
+                        ten.release()
+                    except Exception:  # noqa: BLE001
+                        pass
+                if isinstance(readable, bool):
+                    break
+        rep[str(t)] = {"valid": v, "readable": readable, "bystander": t in c.get("other", [])}
     return rep
 
 
@@ -551,7 +676,8 @@ class SysTrace:
         self.killed_in = None
 
 
-def parse_strace(log_path: str, c: dict, d: str) -> SysTrace:
+def parse_strace(log_path: str, c: dict, d: str, cwd: str | None = None) -> SysTrace:
+    """cwd: working directory of the traced process (relative paths of the log are resolved against it)."""
     calls = read_strace(log_path)
     tr = SysTrace()
     d = os.path.abspath(d)
@@ -560,6 +686,10 @@ def parse_strace(log_path: str, c: dict, d: str) -> SysTrace:
     real = os.path.join(d, real_rel(c)) if (not c["shard"] and c["dest"] == "symlink") else None
     if real:
         dest_paths[real] = 1
+    if c.get("bv") == "hard":
+        dest_paths[os.path.join(d, HARD_NAME)] = 1          # another name of the destination file
+    # the bystanders' file: a SOURCE of the save, never a destination
+    other_file = os.path.normpath(other_path(c, d)) if c.get("other") else None
     model_path = os.path.join(d, MODEL_NAME)
     fds: dict = {}  # fd -> [(path, kind, opener pid)]; a list because strace may log the close of a
     #                 descriptor by one thread AFTER its reuse by an openat of another thread
@@ -602,9 +732,10 @@ def parse_strace(log_path: str, c: dict, d: str) -> SysTrace:
         return workers[pid]
 
     def absp(p):
-        return p if os.path.isabs(p) else os.path.normpath(os.path.join(tr_cwd, p))
+        # lexical normalisation is enough: no directory of the scenario is a symbolic link
+        return os.path.normpath(p if os.path.isabs(p) else os.path.join(tr_cwd, p))
 
-    tr_cwd = os.getcwd()
+    tr_cwd = cwd or os.getcwd()
     for pid, name, args, ret, tail in calls:
         counts[(pid, name)] = counts.get((pid, name), 0) + 1
         k = counts[(pid, name)]
@@ -650,8 +781,10 @@ def parse_strace(log_path: str, c: dict, d: str) -> SysTrace:
             flags = args[2]
             if is_tmpfile(p):
                 ev = {"a": "OpenWorker" if "O_RDWR" in flags else "OpenTmp"}
-            elif p in dest_paths and "O_RDONLY" in flags:
-                ev = {"a": "OpenSrc"}
+            elif (p in dest_paths or p == other_file) and "O_RDONLY" in flags:
+                ev = {"a": "OpenSrc"}       # ExternalTensor.tofile opens its backing file, whichever it is
+            elif p == other_file:
+                ev = {"a": "OpenOtherForWrite"}
             elif p == model_path:
                 ev = {"a": "ModelIO"}
         elif name in ("write", "pwrite64"):
@@ -674,7 +807,9 @@ def parse_strace(log_path: str, c: dict, d: str) -> SysTrace:
             if ent and is_tmpfile(ent[0]):
                 off_in = int(re.sub(r"[\[\]]", "", args[1])) if args[1] != "NULL" else 0
                 idx = off_in // CH - 1
-                t = c["backed"][idx] if 0 <= idx < len(c["backed"]) else 0
+                src = fd_get(int(args[0]), pid)
+                group = c["other"] if (src and other_file and src[0] == other_file) else c["backed"]
+                t = group[idx] if 0 <= idx < len(group) else 0
                 if not okret and r == "fail" and re.search(r"\b(EPERM|EINVAL|ENOSYS|EOPNOTSUPP|EXDEV)\b", tail):
                     ev = {"a": "CfrFallback", "t": t, "r": "ok"}
                 else:
@@ -702,7 +837,7 @@ def parse_strace(log_path: str, c: dict, d: str) -> SysTrace:
             ps = [absp(_unq(a)) for a in args if a.startswith('"')]
             if ps and is_tmpfile(ps[0]):
                 ev = {"a": "Replace", "to": ps[-1]}
-            elif any(p in dest_paths for p in ps):
+            elif any(p in dest_paths or p == other_file for p in ps):
                 ev = {"a": "RenameOther"}
         elif name in ("unlink", "unlinkat"):
             p = absp(_unq(args[0] if name == "unlink" else args[1]))
@@ -712,7 +847,7 @@ def parse_strace(log_path: str, c: dict, d: str) -> SysTrace:
                     r = "soft"
             elif is_tmpdir(p):
                 ev = {"a": "RmTmpDir"}
-            elif p in dest_paths:
+            elif p in dest_paths or p == other_file:
                 ev = {"a": "UnlinkDest"}
         elif name == "rmdir":
             p = absp(_unq(args[0]))
@@ -730,7 +865,7 @@ def parse_strace(log_path: str, c: dict, d: str) -> SysTrace:
             ev = {"a": "OpenDestForWrite"}
         if name in ("write", "pwrite64") and ev is None:
             ent = fd_get(int(args[0]), pid)
-            if ent and ent[0] in dest_paths:
+            if ent and (ent[0] in dest_paths or ent[0] == other_file):
                 ev = {"a": "WriteDest"}
         if ret == "?" and tr.killed_in is not None:
             continue   # calls of OTHER threads that were pending when the injected SIGKILL ended the process
@@ -1032,6 +1167,7 @@ def py_job(job: dict) -> dict:
         import shutil
 
         shutil.rmtree(d, ignore_errors=True)
+        shutil.rmtree(d + SIB_SUFFIX, ignore_errors=True)
     return res
 
 
@@ -1236,7 +1372,7 @@ def sys_job(job: dict) -> dict:
         res = {}
     out = {"cfg": c, "inject": inj, "rc": rc, "stderr": err, "res": res, "layer": "sys", "mode": mode}
     try:
-        tr = parse_strace(log, c, d)
+        tr = parse_strace(log, c, d, cwd=(os.path.dirname(d) if mode == "exec" else os.getcwd()))
         out.update(events=tr.events, positions=tr.positions, begin=tr.begin, end=tr.end, injected=tr.injected,
                    killed_in=tr.killed_in, unmapped=tr.unmapped)
     except OSError as e:
@@ -1245,6 +1381,7 @@ def sys_job(job: dict) -> dict:
     out["obs"] = observe(c, d)
     if not job.get("keep"):
         shutil.rmtree(d, ignore_errors=True)
+        shutil.rmtree(d + SIB_SUFFIX, ignore_errors=True)
         for x in (log, rpath):
             try:
                 os.unlink(x)
